@@ -11,12 +11,13 @@ import random, itertools, copy, importlib
 from harness import common as H
 
 PROP = "C18"
-RULE = ("cases = (tensor of 1-3 ranks built by fromFiber with/without declared shape, fromUncompressed, or "
+RULE = ("cases = (tensor of 1-3 ranks, its own rank formats left default or set to C/U by Tensor.setFormat, built by fromFiber with/without declared shape, fromUncompressed, or "
         "getPayloadRef insertions into a mutable tensor; per-rank spec dict with any subset of "
         "format/rhbits/fhbits/cbits/pbits/layout, optional root dict; point prefixes). small scope: every tree "
         "over n coordinates per level x {absent, explicit default, value} leaves x {absent, empty, all-default, "
         "populated} sub-fibers x every format assignment {C,U}^d x declared/estimated shapes, every point prefix; "
-        "random: larger trees, widths in {0,1,8,32} and random weights, missing fields, ~4% malformed specs "
+        "lattice: every subset of omitted fields of one rank / omitted rank key / omitted root fields x every "
+        "tensor-format assignment; random: larger trees, widths in {0,1,8,32} and random weights, missing fields, ~4% malformed specs "
         "(compared on accept/reject only). non-trivial = accepted spec, some non-zero width, and at least one "
         "of: depth >= 2, an uncompressed rank, an explicit default, an empty leaf fiber")
 
@@ -170,8 +171,42 @@ def gen(seed, tier):
                         shape = [n + 1] * D
                     else:
                         shape = None
-                    yield {"prop": PROP, "D": D, "dflt": 0, "t": tree, "build": build, "shape": shape,
+                    # the tensor's own rank formats (Tensor.setFormat) are a configuration the footprint
+                    # must not read: alternate unset / opposite to the spec / all "U"
+                    tf = [None, ["U" if f == "C" else "C" for f in fmts], ["U"] * D][(ti + (build == "fromFiber")) % 3]
+                    yield {"prop": PROP, "D": D, "dflt": 0, "t": tree, "build": build, "shape": shape, "tfmt": tf,
                            "spec": weighted_spec(D, fmts), "points": all_points(D, list(range(n + 1)))}
+    # ---- bounded-exhaustive lattice of omitted spec fields (seed independent) ----
+    # for one rank at a time every subset of the six fields is omitted (the other ranks fully
+    # specified), the rank key itself is omitted, root fields are omitted; x every assignment of the
+    # tensor's own rank formats x both explicit formats; trees whose occupancies differ from the shape
+    lat_trees = {1: [[[1, 5]], [], [[0, 5], [1, 0], [3, 2]]],
+                 2: [[[0, [[1, 5], [3, 0]]], [2, []], [3, [[0, 0]]]], [[1, [[2, 4]]]]]}
+    if not quick:
+        lat_trees[3] = [[[0, [[1, [[0, 1], [2, 3]]], [2, []]]], [3, [[0, [[1, 0]]]]]]]
+    for D, ltrees in lat_trees.items():
+        n = 4
+        for tree in ltrees:
+            pts = [[]] + [[c] for c in range(n + 1)] + ([[0, 1], [2, 0], [1, 2]] if D >= 2 else [])
+            pts = [p for p in pts if len(p) <= D]
+            for tf in itertools.product("CU", repeat=D):
+                for fmts in (["C"] * D, ["U"] * D):
+                    full = weighted_spec(D, fmts)
+                    for e in full["ranks"]:
+                        e.append(["layout", "interleaved"])
+                    for i in range(D):
+                        for mask in range(64):
+                            e2 = [kv for j, kv in enumerate(full["ranks"][i]) if not (mask >> j) & 1]
+                            sp = {"root": full["root"], "ranks": full["ranks"][:i] + [e2] + full["ranks"][i + 1:]}
+                            yield {"prop": PROP, "D": D, "dflt": 0, "t": tree, "build": "fromFiber+shape",
+                                   "shape": [n] * D, "tfmt": list(tf), "spec": sp, "points": pts}
+                        sp = {"root": full["root"], "ranks": full["ranks"][:i] + [None] + full["ranks"][i + 1:]}
+                        yield {"prop": PROP, "D": D, "dflt": 0, "t": tree, "build": "fromFiber", "shape": None,
+                               "tfmt": list(tf), "spec": sp, "points": pts}
+                    for root in (None, [], [["hbits", 11]], [["pbits", 13]]):
+                        yield {"prop": PROP, "D": D, "dflt": 0, "t": tree, "build": "fromFiber+shape",
+                               "shape": [n] * D, "tfmt": list(tf), "spec": {"root": root, "ranks": full["ranks"]},
+                               "points": pts}
     # 3-rank trees in the quick tier: a seeded sample of the exhaustive family
     rng = random.Random(seed)
     if quick:
@@ -182,6 +217,7 @@ def gen(seed, tier):
             build = rng.choice(["fromFiber", "fromFiber+shape"])
             yield {"prop": PROP, "D": 3, "dflt": 0, "t": tree, "build": build,
                    "shape": [3, 3, 3] if build == "fromFiber+shape" else None,
+                   "tfmt": [rng.choice([None, "C", "U"]) for _ in range(3)],
                    "spec": weighted_spec(3, fmts), "points": all_points(3, [0, 1, 2])}
     # ---- seeded random ----
     nrand = 12000 if quick else 120000
@@ -210,7 +246,9 @@ def gen(seed, tier):
             spec = weighted_spec(D, [rng.choice("CU") for _ in range(D)], scale=rng.choice([0, 1, 3]))
         else:
             spec = random_spec(rng, D)
-        yield {"prop": PROP, "D": D, "dflt": dflt, "t": tree, "build": build, "shape": shape,
+        tf = [rng.choice([None, "C", "U", "U"]) for _ in range(D)] if rng.random() < 0.6 else None
+        yield {"prop": PROP, "D": D, "dflt": dflt, "t": tree, "build": build, "shape": shape, "tfmt": tf,
+               "tfmt_first": rng.random() < 0.5,
                "spec": spec, "points": sample_points(rng, D, tree, n), "order": rng.randrange(1 << 30)}
 
 
@@ -241,6 +279,13 @@ def _leaves(tree, depth, prefix=()):
                 yield from _leaves(s, depth - 1, prefix + (c,))
 
 
+def set_formats(t, case):
+    """the tensor's own per-rank iteration formats (Tensor.setFormat): part of the configuration"""
+    for rid, f in zip(RANK_IDS[:case["D"]], case.get("tfmt") or []):
+        if f is not None:
+            t.setFormat(rid, f)
+
+
 def build_tensor(case):
     ft = H.ft()
     D, dflt, tree, build, shape = case["D"], case["dflt"], case["t"], case["build"], case.get("shape")
@@ -252,6 +297,8 @@ def build_tensor(case):
         return ft.Tensor.fromUncompressed(rank_ids=ids, root=_dense(tree, D, shape), shape=shape, default=dflt)
     if build == "mutable":
         t = ft.Tensor(rank_ids=ids, shape=shape, default=dflt)
+        if case.get("tfmt_first"):
+            set_formats(t, case)
         items = list(_leaves(tree, D))
         random.Random(case.get("order", 0)).shuffle(items)
         for path, v in items:
@@ -300,10 +347,11 @@ def run(case):
     D = case["D"]
     ids = RANK_IDS[:D]
     t = build_tensor(case)
+    set_formats(t, case)
     root = t.getRoot()
     by_level = {}
     id2path = dict(_walk_ids(root, [], 0, by_level))
-    impl = {"state": H.snapshot(root), "shape": t.getShape()}
+    impl = {"state": H.snapshot(root), "shape": t.getShape(), "tformat": [t.getFormat(r) for r in ids]}
     impl["ranklists"] = [[[id2path.get(id(f)), len(f.coords)] for f in r.getFibers()] for r in t.ranks]
     side = {}
     # modelling precondition: the shape an uncompressed fiber reports is its rank's shape
@@ -437,6 +485,11 @@ def shrink_candidates(case):
         for j in range(len(e or [])):
             e2 = e[:j] + e[j + 1:]
             yield with_(spec={"root": sp["root"], "ranks": sp["ranks"][:i] + [e2] + sp["ranks"][i + 1:]})
+    if case.get("tfmt"):
+        yield with_(tfmt=None)
+        for i, f in enumerate(case["tfmt"]):
+            if f is not None:
+                yield with_(tfmt=case["tfmt"][:i] + [None] + case["tfmt"][i + 1:])
     # simpler construction
     if case["build"] in ("mutable", "fromUncompressed"):
         yield with_(build="fromFiber+shape")
